@@ -74,9 +74,22 @@ func (g *hgate) hit() {
 		g.mu.Unlock()
 		close(g.parked2)
 		<-g.rel2
+	case g.stage == 3 && strings.Contains(f.Function, "ranges") && strings.HasSuffix(f.Function, ".Add"):
+		// inside ranges.Add, i.e. under the write lock of the pending ranges
+		g.stage = 0
+		g.mu.Unlock()
+		close(g.parked1)
+		<-g.rel1
 	default:
 		g.mu.Unlock()
 	}
+}
+
+// newAddGate parks the first Height() asked from ranges.Add (stage 3 only).
+func newAddGate() *hgate {
+	g := newGate()
+	g.stage = 3
+	return g
 }
 
 // PH is vhdr.Header with a Height() that can park its caller.
@@ -103,13 +116,28 @@ type rangeReq struct {
 }
 
 type phGetter struct {
-	mu   gosync.Mutex
-	head *PH
-	cur  *rangeReq
-	at   func(uint64) *PH
+	mu       gosync.Mutex
+	head     *PH
+	cur      *rangeReq
+	at       func(uint64) *PH
+	headGate chan struct{} // when set, Head waits for it before answering
+	inHead   int           // Head calls waiting at headGate
 }
 
-func (g *phGetter) Head(context.Context, ...header.HeadOption[*PH]) (*PH, error) {
+func (g *phGetter) Head(ctx context.Context, _ ...header.HeadOption[*PH]) (*PH, error) {
+	g.mu.Lock()
+	gate := g.headGate
+	if gate != nil {
+		g.inHead++
+	}
+	g.mu.Unlock()
+	if gate != nil {
+		select {
+		case <-gate:
+		case <-ctx.Done():
+			return nil, ctx.Err()
+		}
+	}
 	g.mu.Lock()
 	defer g.mu.Unlock()
 	if g.head == nil {
